@@ -180,10 +180,22 @@ def run_job(job, rec):
                 rec.check(abs(cc - ref) <= tol_abs, "cdf-level",
                           lambda: f"{name}: cdf({xx!r}) = {cc!r} but the density integrates to {ref!r} below that point (a tail is clipped?)", ctx)
 
+            # integer-typed evaluation points: same answers as the same values as floats
+            if x.max() - x.min() > 6 and np.abs(x).max() < 1e15:
+                xi = np.unique(np.round(rng.uniform(x.min(), x.max(), size=6)).astype(np.int64))
+                pa, pb = guarded(E, xi), guarded(E, xi.astype(float))
+                ca, cb = guarded(E.cdf, xi), guarded(E.cdf, xi.astype(float))
+                rec.count("integer_query_cases")
+                okd = not any(isinstance(v, Raised) for v in (pa, pb, ca, cb)) and np.allclose(pa, pb, rtol=1e-12, atol=0) and np.allclose(ca, cb, rtol=0, atol=1e-9)
+                rec.check(okd, "depends-on-dtype-of-points", lambda: f"{name}: integer-typed evaluation points give {pa!r}, floats give {pb!r}", ctx)
+
             # history: the same query array modified in place; repeated calls return the same values
             xq = np.sort(rng.uniform(x.min(), x.max(), size=5))
             p1, c1 = guarded(E, xq), guarded(E.cdf, xq)
-            xq += 0.3 * sd
+            xq -= 0.1 * sd
+            guarded(E, xq)
+            guarded(E.cdf, xq)
+            xq += 0.4 * sd
             p2, c2 = guarded(E, xq), guarded(E.cdf, xq)
             p3, c3 = guarded(E, xq.copy()), guarded(E.cdf, xq.copy())
             rec.count("in_place_query_updates")
